@@ -1,7 +1,593 @@
-//! `set.*` and `impl.set.*` operations (stub; filled in by the owner of this family).
-#![allow(unused_imports, dead_code)]
+//! `set.*` and `impl.set.*` operations (C14): every constructor / setter / checksum entry point of
+//! the crate that takes a caller supplied length and stores it into a narrower wire field.
+//!
+//! Header states are passed as the serialised header (hex, decoded with the crate's own
+//! `from_slice`; nothing may be left over); payloads / option areas / addresses are described by
+//! `len a b` = the byte string `i -> (a + i*b) mod 256`, `i < len`.  Result lines:
+//!   constructors    ok(<to_bytes hex>) | err(..)
+//!   `&mut` setters  <ok | err(..)>;hdr=<to_bytes of the header after the call>
+//!   checksums       ok(<u16>) | err(..)
+//! `impl.set.*big` operations use a zero filled (calloc) buffer of the given length so that the
+//! 32 bit limits can be observed on the implementation (never through the Lean driver).
+#![allow(unused_imports, dead_code, deprecated)]
 use crate::util::*;
+use etherparse::err::ValueTooBigError;
+use etherparse::*;
 
-pub fn run(_op: &str, _a: &[&str]) -> Option<String> {
-    None
+fn pat(l: &str, a: &str, b: &str) -> Option<Vec<u8>> {
+    let l: usize = num(l)?;
+    let a: u8 = num(a)?;
+    let b: u8 = num(b)?;
+    if l > 1048576 {
+        return None;
+    }
+    Some((0..l).map(|i| (a as usize).wrapping_add(i.wrapping_mul(b as usize)) as u8).collect())
+}
+
+fn too_big<T: core::fmt::Display + core::fmt::Debug + Clone + Eq + core::hash::Hash>(
+    e: &ValueTooBigError<T>,
+) -> String {
+    format!(
+        "err(actual={},max={},vt={:?})",
+        e.actual, e.max_allowed, e.value_type
+    )
+}
+
+fn res<T: core::fmt::Display + core::fmt::Debug + Clone + Eq + core::hash::Hash>(
+    r: &Result<(), ValueTooBigError<T>>,
+) -> String {
+    match r {
+        Ok(()) => "ok".to_string(),
+        Err(e) => too_big(e),
+    }
+}
+
+fn ck(r: &Result<u16, ValueTooBigError<usize>>) -> String {
+    match r {
+        Ok(v) => format!("ok({})", v),
+        Err(e) => too_big(e),
+    }
+}
+
+fn arr<const N: usize>(s: &str) -> Option<[u8; N]> {
+    hex(s)?.try_into().ok()
+}
+
+fn ipv4_of(s: &str) -> Option<Ipv4Header> {
+    let b = hex(s)?;
+    match Ipv4Header::from_slice(&b) {
+        Ok((h, rest)) if rest.is_empty() => Some(h),
+        _ => None,
+    }
+}
+
+fn ipv6_of(s: &str) -> Option<Ipv6Header> {
+    let b = hex(s)?;
+    match Ipv6Header::from_slice(&b) {
+        Ok((h, rest)) if rest.is_empty() => Some(h),
+        _ => None,
+    }
+}
+
+fn auth_of(s: &str) -> Option<IpAuthHeader> {
+    let b = hex(s)?;
+    match IpAuthHeader::from_slice(&b) {
+        Ok((h, rest)) if rest.is_empty() => Some(h),
+        _ => None,
+    }
+}
+
+fn rawext_of(s: &str) -> Option<Ipv6RawExtHeader> {
+    let b = hex(s)?;
+    match Ipv6RawExtHeader::from_slice(&b) {
+        Ok((h, rest)) if rest.is_empty() => Some(h),
+        _ => None,
+    }
+}
+
+fn frag_of(s: &str) -> Option<Ipv6FragmentHeader> {
+    let b = hex(s)?;
+    match Ipv6FragmentHeader::from_slice(&b) {
+        Ok((h, rest)) if rest.is_empty() => Some(h),
+        _ => None,
+    }
+}
+
+fn udp_of(s: &str) -> Option<UdpHeader> {
+    let b = hex(s)?;
+    match UdpHeader::from_slice(&b) {
+        Ok((h, rest)) if rest.is_empty() => Some(h),
+        _ => None,
+    }
+}
+
+fn tcp_of(s: &str) -> Option<TcpHeader> {
+    let b = hex(s)?;
+    match TcpHeader::from_slice(&b) {
+        Ok((h, rest)) if rest.is_empty() => Some(h),
+        _ => None,
+    }
+}
+
+fn icmp6_of(s: &str) -> Option<Icmpv6Header> {
+    let b = hex(s)?;
+    match Icmpv6Header::from_slice(&b) {
+        Ok((h, rest)) if rest.is_empty() => Some(h),
+        _ => None,
+    }
+}
+
+fn macsec_of(s: &str) -> Option<MacsecHeader> {
+    let b = hex(s)?;
+    match MacsecHeader::from_slice(&b) {
+        Ok(h) if h.header_len() == b.len() => Some(h),
+        _ => None,
+    }
+}
+
+fn arp_of(s: &str) -> Option<ArpPacket> {
+    let b = hex(s)?;
+    match ArpPacket::from_slice(&b) {
+        Ok(h) if h.packet_len() == b.len() => Some(h),
+        _ => None,
+    }
+}
+
+fn opt_of<T>(f: fn(&str) -> Option<T>, s: &str) -> Option<Option<T>> {
+    if s == "-" {
+        Some(None)
+    } else {
+        f(s).map(Some)
+    }
+}
+
+fn icv_err(e: &err::ip_auth::IcvLenError) -> String {
+    use err::ip_auth::IcvLenError::*;
+    match e {
+        TooBig(n) => format!("err(TooBig({}))", n),
+        Unaligned(n) => format!("err(Unaligned({}))", n),
+    }
+}
+
+fn ext_err(e: &err::ipv6_exts::ExtPayloadLenError) -> String {
+    use err::ipv6_exts::ExtPayloadLenError::*;
+    match e {
+        TooSmall(n) => format!("err(TooSmall({}))", n),
+        TooBig(n) => format!("err(TooBig({}))", n),
+        Unaligned(n) => format!("err(Unaligned({}))", n),
+    }
+}
+
+fn arp_hw_err(e: &err::arp::ArpHwAddrError) -> String {
+    use err::arp::ArpHwAddrError::*;
+    match e {
+        LenTooBig(n) => format!("err(HwAddr(LenTooBig({})))", n),
+        LenNonMatching(a, b) => format!("err(HwAddr(LenNonMatching({},{})))", a, b),
+    }
+}
+
+fn arp_proto_err(e: &err::arp::ArpProtoAddrError) -> String {
+    use err::arp::ArpProtoAddrError::*;
+    match e {
+        LenTooBig(n) => format!("err(ProtoAddr(LenTooBig({})))", n),
+        LenNonMatching(a, b) => format!("err(ProtoAddr(LenNonMatching({},{})))", a, b),
+    }
+}
+
+fn tcp_opt_err(e: &TcpOptionWriteError) -> String {
+    match e {
+        TcpOptionWriteError::NotEnoughSpace(n) => format!("err(NotEnoughSpace({}))", n),
+    }
+}
+
+fn opt_usize(v: Option<usize>) -> String {
+    match v {
+        None => "none".to_string(),
+        Some(x) => format!("some({})", x),
+    }
+}
+
+/// a zero filled buffer of `len` bytes that is never written (calloc: untouched pages)
+fn zero_buf(len: usize) -> Option<Vec<u8>> {
+    if len > (1usize << 33) {
+        return None;
+    }
+    Some(vec![0u8; len])
+}
+
+pub fn run(op: &str, a: &[&str]) -> Option<String> {
+    Some(match (op, a) {
+        // ---------------------------------------------------------------- IPv4
+        ("set.ipv4.new", [n, ttl, proto, src, dst]) => {
+            let n: u16 = num(n)?;
+            let ttl: u8 = num(ttl)?;
+            let proto: u8 = num(proto)?;
+            match Ipv4Header::new(n, ttl, IpNumber(proto), arr::<4>(src)?, arr::<4>(dst)?) {
+                Ok(h) => format!("ok({})", to_hex(&h.to_bytes())),
+                Err(e) => too_big(&e),
+            }
+        }
+        ("set.ipv4.set_payload_len", [hdr, n]) => {
+            let mut h = ipv4_of(hdr)?;
+            let n: usize = num(n)?;
+            let max = h.max_payload_len();
+            let r = h.set_payload_len(n);
+            format!("{};max={};hdr={}", res(&r), max, to_hex(&h.to_bytes()))
+        }
+        ("set.ipv4.set_options", [hdr, l, x, y]) => {
+            let mut h = ipv4_of(hdr)?;
+            let d = pat(l, x, y)?;
+            let r = h.set_options(&d);
+            format!(
+                "{};hdr={}",
+                match r {
+                    Ok(()) => "ok".to_string(),
+                    Err(e) => format!("err(BadOptionsLen({}))", e.bad_len),
+                },
+                to_hex(&h.to_bytes())
+            )
+        }
+        ("set.ipv4opts.try_from", [l, x, y]) => {
+            let d = pat(l, x, y)?;
+            match Ipv4Options::try_from(&d[..]) {
+                Ok(o) => format!("ok(len={},{})", o.len(), to_hex(o.as_slice())),
+                Err(e) => format!("err(BadOptionsLen({}))", e.bad_len),
+            }
+        }
+        // ---------------------------------------------------------------- IPv6
+        ("set.ipv6.set_payload_length", [hdr, n]) => {
+            let mut h = ipv6_of(hdr)?;
+            let n: usize = num(n)?;
+            let r = h.set_payload_length(n);
+            format!("{};hdr={}", res(&r), to_hex(&h.to_bytes()))
+        }
+        // ---------------------------------------------------------------- IpHeaders
+        ("set.ip4.set_payload_len", [hdr, auth, n]) => {
+            let h = ipv4_of(hdr)?;
+            let auth = opt_of(auth_of, auth)?;
+            let n: usize = num(n)?;
+            let mut ip = IpHeaders::Ipv4(h, Ipv4Extensions { auth });
+            let r = ip.set_payload_len(n);
+            match ip {
+                IpHeaders::Ipv4(h, e) => format!(
+                    "{};hdr={};extlen={}",
+                    res(&r),
+                    to_hex(&h.to_bytes()),
+                    e.header_len()
+                ),
+                _ => return None,
+            }
+        }
+        ("set.ip6.set_payload_len", [hdr, hbh, dst, rt, fdst, frag, auth, n]) => {
+            let h = ipv6_of(hdr)?;
+            let hbh = opt_of(rawext_of, hbh)?;
+            let dst = opt_of(rawext_of, dst)?;
+            let rt = opt_of(rawext_of, rt)?;
+            let fdst = opt_of(rawext_of, fdst)?;
+            let frag = opt_of(frag_of, frag)?;
+            let auth = opt_of(auth_of, auth)?;
+            let n: usize = num(n)?;
+            let routing = match (rt, fdst) {
+                (Some(r), f) => Some(Ipv6RoutingExtensions {
+                    routing: r,
+                    final_destination_options: f,
+                }),
+                (None, None) => None,
+                (None, Some(_)) => return None,
+            };
+            let mut ip = IpHeaders::Ipv6(
+                h,
+                Ipv6Extensions {
+                    hop_by_hop_options: hbh,
+                    destination_options: dst,
+                    routing,
+                    fragment: frag,
+                    auth,
+                },
+            );
+            let r = ip.set_payload_len(n);
+            match ip {
+                IpHeaders::Ipv6(h, e) => format!(
+                    "{};hdr={};extlen={}",
+                    res(&r),
+                    to_hex(&h.to_bytes()),
+                    e.header_len()
+                ),
+                _ => return None,
+            }
+        }
+        // ---------------------------------------------------------------- UDP
+        ("set.udp.without_ipv4_checksum", [sp, dp, n]) => {
+            match UdpHeader::without_ipv4_checksum(num(sp)?, num(dp)?, num::<usize>(n)?) {
+                Ok(h) => format!("ok({})", to_hex(&h.to_bytes())),
+                Err(e) => too_big(&e),
+            }
+        }
+        ("set.udp.with_ipv4_checksum", [sp, dp, src, dst, l, x, y]) => {
+            let ip = Ipv4Header {
+                source: arr::<4>(src)?,
+                destination: arr::<4>(dst)?,
+                ..Default::default()
+            };
+            let p = pat(l, x, y)?;
+            match UdpHeader::with_ipv4_checksum(num(sp)?, num(dp)?, &ip, &p) {
+                Ok(h) => format!("ok({})", to_hex(&h.to_bytes())),
+                Err(e) => too_big(&e),
+            }
+        }
+        ("set.udp.with_ipv6_checksum", [sp, dp, src, dst, l, x, y]) => {
+            let ip = Ipv6Header {
+                source: arr::<16>(src)?,
+                destination: arr::<16>(dst)?,
+                ..Default::default()
+            };
+            let p = pat(l, x, y)?;
+            match UdpHeader::with_ipv6_checksum(num(sp)?, num(dp)?, &ip, &p) {
+                Ok(h) => format!("ok({})", to_hex(&h.to_bytes())),
+                Err(e) => too_big(&e),
+            }
+        }
+        ("set.udp.calc_checksum_ipv4", [hdr, src, dst, l, x, y]) => {
+            let h = udp_of(hdr)?;
+            let (src, dst) = (arr::<4>(src)?, arr::<4>(dst)?);
+            let ip = Ipv4Header {
+                source: src,
+                destination: dst,
+                ..Default::default()
+            };
+            let p = pat(l, x, y)?;
+            format!(
+                "raw={},hdr={}",
+                ck(&h.calc_checksum_ipv4_raw(src, dst, &p)),
+                ck(&h.calc_checksum_ipv4(&ip, &p))
+            )
+        }
+        ("set.udp.calc_checksum_ipv6", [hdr, src, dst, l, x, y]) => {
+            let h = udp_of(hdr)?;
+            let (src, dst) = (arr::<16>(src)?, arr::<16>(dst)?);
+            let ip = Ipv6Header {
+                source: src,
+                destination: dst,
+                ..Default::default()
+            };
+            let p = pat(l, x, y)?;
+            format!(
+                "raw={},hdr={}",
+                ck(&h.calc_checksum_ipv6_raw(src, dst, &p)),
+                ck(&h.calc_checksum_ipv6(&ip, &p))
+            )
+        }
+        ("impl.set.udp.calc_checksum_ipv6.big", [hdr, src, dst, l]) => {
+            let h = udp_of(hdr)?;
+            let p = zero_buf(num(l)?)?;
+            ck(&h.calc_checksum_ipv6_raw(arr::<16>(src)?, arr::<16>(dst)?, &p))
+        }
+        // ---------------------------------------------------------------- TCP
+        ("set.tcp.calc_checksum_ipv4", [hdr, src, dst, l, x, y]) => {
+            let h = tcp_of(hdr)?;
+            let (src, dst) = (arr::<4>(src)?, arr::<4>(dst)?);
+            let ip = Ipv4Header {
+                source: src,
+                destination: dst,
+                ..Default::default()
+            };
+            let p = pat(l, x, y)?;
+            format!(
+                "raw={},hdr={}",
+                ck(&h.calc_checksum_ipv4_raw(src, dst, &p)),
+                ck(&h.calc_checksum_ipv4(&ip, &p))
+            )
+        }
+        ("set.tcp.calc_checksum_ipv6", [hdr, src, dst, l, x, y]) => {
+            let h = tcp_of(hdr)?;
+            let (src, dst) = (arr::<16>(src)?, arr::<16>(dst)?);
+            let ip = Ipv6Header {
+                source: src,
+                destination: dst,
+                ..Default::default()
+            };
+            let p = pat(l, x, y)?;
+            format!(
+                "raw={},hdr={}",
+                ck(&h.calc_checksum_ipv6_raw(src, dst, &p)),
+                ck(&h.calc_checksum_ipv6(&ip, &p))
+            )
+        }
+        ("impl.set.tcp.calc_checksum_ipv6.big", [hdr, src, dst, l]) => {
+            let h = tcp_of(hdr)?;
+            let p = zero_buf(num(l)?)?;
+            ck(&h.calc_checksum_ipv6_raw(arr::<16>(src)?, arr::<16>(dst)?, &p))
+        }
+        ("set.tcpslice.calc_checksum_ipv4", [hdr, src, dst, l, x, y]) => {
+            let _ = tcp_of(hdr)?;
+            let mut b = hex(hdr)?;
+            b.extend_from_slice(&pat(l, x, y)?);
+            let s = TcpSlice::from_slice(&b).ok()?;
+            ck(&s.calc_checksum_ipv4(arr::<4>(src)?, arr::<4>(dst)?))
+        }
+        ("set.tcpslice.calc_checksum_ipv6", [hdr, src, dst, l, x, y]) => {
+            let _ = tcp_of(hdr)?;
+            let mut b = hex(hdr)?;
+            b.extend_from_slice(&pat(l, x, y)?);
+            let s = TcpSlice::from_slice(&b).ok()?;
+            ck(&s.calc_checksum_ipv6(arr::<16>(src)?, arr::<16>(dst)?))
+        }
+        ("impl.set.tcpslice.calc_checksum_ipv6.big", [hdr, src, dst, l]) => {
+            // slice = header followed by zeros, `l` bytes in total
+            let hb = hex(hdr)?;
+            let _ = tcp_of(hdr)?;
+            let l: usize = num(l)?;
+            if l < hb.len() {
+                return None;
+            }
+            let mut b = zero_buf(l)?;
+            b[..hb.len()].copy_from_slice(&hb);
+            let s = TcpSlice::from_slice(&b).ok()?;
+            ck(&s.calc_checksum_ipv6(arr::<16>(src)?, arr::<16>(dst)?))
+        }
+        ("set.tcp.set_options_raw", [hdr, l, x, y]) => {
+            let mut h = tcp_of(hdr)?;
+            let d = pat(l, x, y)?;
+            let r = h.set_options_raw(&d);
+            format!(
+                "{};hdr={}",
+                match r {
+                    Ok(()) => "ok".to_string(),
+                    Err(e) => tcp_opt_err(&e),
+                },
+                to_hex(&h.to_bytes())
+            )
+        }
+        ("set.tcpopts.try_from_slice", [l, x, y]) => {
+            let d = pat(l, x, y)?;
+            match TcpOptions::try_from_slice(&d) {
+                Ok(o) => format!("ok(len={},{})", o.len(), to_hex(o.as_slice())),
+                Err(e) => tcp_opt_err(&e),
+            }
+        }
+        // ---------------------------------------------------------------- ICMPv6
+        ("set.icmp6.calc_checksum", [hdr, src, dst, l, x, y]) => {
+            let h = icmp6_of(hdr)?;
+            let p = pat(l, x, y)?;
+            ck(&h.icmp_type.calc_checksum(arr::<16>(src)?, arr::<16>(dst)?, &p))
+        }
+        ("impl.set.icmp6.calc_checksum.big", [hdr, src, dst, l]) => {
+            let h = icmp6_of(hdr)?;
+            let p = zero_buf(num(l)?)?;
+            ck(&h.icmp_type.calc_checksum(arr::<16>(src)?, arr::<16>(dst)?, &p))
+        }
+        ("set.icmp6.with_checksum", [hdr, src, dst, l, x, y]) => {
+            let h = icmp6_of(hdr)?;
+            let p = pat(l, x, y)?;
+            match Icmpv6Header::with_checksum(h.icmp_type, arr::<16>(src)?, arr::<16>(dst)?, &p) {
+                Ok(h2) => format!("ok({})", to_hex(&h2.to_bytes())),
+                Err(e) => too_big(&e),
+            }
+        }
+        ("set.icmp6.update_checksum", [hdr, src, dst, l, x, y]) => {
+            let mut h = icmp6_of(hdr)?;
+            let p = pat(l, x, y)?;
+            let r = h.update_checksum(arr::<16>(src)?, arr::<16>(dst)?, &p);
+            format!("{};hdr={}", res(&r), to_hex(&h.to_bytes()))
+        }
+        // ---------------------------------------------------------------- MACsec
+        ("set.macsec.set_payload_len", [hdr, n]) => {
+            let mut h = macsec_of(hdr)?;
+            h.set_payload_len(num::<usize>(n)?);
+            format!(
+                "ok;hdr={};sl={};exp={}",
+                to_hex(&h.to_bytes()),
+                h.short_len.value(),
+                opt_usize(h.expected_payload_len())
+            )
+        }
+        ("set.macsec.from_len", [n]) => MacsecShortLen::from_len(num::<usize>(n)?)
+            .value()
+            .to_string(),
+        ("set.macsec.try_from", [n]) => {
+            let n: u8 = num(n)?;
+            let r1 = MacsecShortLen::try_from(n);
+            let r2 = MacsecShortLen::try_from_u8(n);
+            if r1 != r2 {
+                return Some(format!("differ({:?},{:?})", r1, r2));
+            }
+            match r1 {
+                Ok(v) => format!("ok({})", v.value()),
+                Err(e) => too_big(&e),
+            }
+        }
+        // ---------------------------------------------------------------- AH / raw ext header
+        ("set.auth.new", [nh, spi, seq, l, x, y]) => {
+            let d = pat(l, x, y)?;
+            match IpAuthHeader::new(IpNumber(num(nh)?), num(spi)?, num(seq)?, &d) {
+                Ok(h) => format!("ok({})", to_hex(&h.to_bytes())),
+                Err(e) => icv_err(&e),
+            }
+        }
+        ("set.auth.set_raw_icv", [hdr, l, x, y]) => {
+            let mut h = auth_of(hdr)?;
+            let d = pat(l, x, y)?;
+            let r = h.set_raw_icv(&d);
+            format!(
+                "{};hdr={}",
+                match r {
+                    Ok(()) => "ok".to_string(),
+                    Err(e) => icv_err(&e),
+                },
+                to_hex(&h.to_bytes())
+            )
+        }
+        ("set.rawext.new_raw", [nh, l, x, y]) => {
+            let d = pat(l, x, y)?;
+            match Ipv6RawExtHeader::new_raw(IpNumber(num(nh)?), &d) {
+                Ok(h) => format!("ok({})", to_hex(&h.to_bytes())),
+                Err(e) => ext_err(&e),
+            }
+        }
+        ("set.rawext.set_payload", [hdr, l, x, y]) => {
+            let mut h = rawext_of(hdr)?;
+            let d = pat(l, x, y)?;
+            let r = h.set_payload(&d);
+            format!(
+                "{};hdr={}",
+                match r {
+                    Ok(()) => "ok".to_string(),
+                    Err(e) => ext_err(&e),
+                },
+                to_hex(&h.to_bytes())
+            )
+        }
+        // ---------------------------------------------------------------- ARP
+        ("set.arp.new", [hw, proto, oper, l1, l2, l3, l4, x, y]) => {
+            let x0: u8 = num(x)?;
+            let shw = pat(l1, x, y)?;
+            let sp = pat(l2, &x0.wrapping_add(1).to_string(), y)?;
+            let thw = pat(l3, &x0.wrapping_add(2).to_string(), y)?;
+            let tp = pat(l4, &x0.wrapping_add(3).to_string(), y)?;
+            match ArpPacket::new(
+                ArpHardwareId(num(hw)?),
+                EtherType(num(proto)?),
+                ArpOperation(num(oper)?),
+                &shw,
+                &sp,
+                &thw,
+                &tp,
+            ) {
+                Ok(h) => format!("ok({})", to_hex(&h.to_bytes())),
+                Err(err::arp::ArpNewError::HwAddr(e)) => arp_hw_err(&e),
+                Err(err::arp::ArpNewError::ProtoAddr(e)) => arp_proto_err(&e),
+            }
+        }
+        ("set.arp.set_hw_addrs", [hdr, l1, l2, x, y]) => {
+            let mut h = arp_of(hdr)?;
+            let x0: u8 = num(x)?;
+            let s = pat(l1, x, y)?;
+            let t = pat(l2, &x0.wrapping_add(2).to_string(), y)?;
+            let r = h.set_hw_addrs(&s, &t);
+            format!(
+                "{};hdr={}",
+                match r {
+                    Ok(()) => "ok".to_string(),
+                    Err(e) => arp_hw_err(&e),
+                },
+                to_hex(&h.to_bytes())
+            )
+        }
+        ("set.arp.set_protocol_addrs", [hdr, l1, l2, x, y]) => {
+            let mut h = arp_of(hdr)?;
+            let x0: u8 = num(x)?;
+            let s = pat(l1, x, y)?;
+            let t = pat(l2, &x0.wrapping_add(2).to_string(), y)?;
+            let r = h.set_protocol_addrs(&s, &t);
+            format!(
+                "{};hdr={}",
+                match r {
+                    Ok(()) => "ok".to_string(),
+                    Err(e) => arp_proto_err(&e),
+                },
+                to_hex(&h.to_bytes())
+            )
+        }
+        _ => return None,
+    })
 }
